@@ -5,6 +5,7 @@ import Ivg.Model.Arc
 import Ivg.Gen.Tie.EncoderFields
 import Ivg.Gen.Tie.GradientFields
 import Ivg.Gen.Tie.RendererFields
+import Ivg.Gen.Tie.Code.RenderRegs
 import Ivg.Obligations
 /-!
 # C17 — the output of an Encoder / Renderer depends only on the calls since its last Reset
@@ -233,4 +234,14 @@ end Ivg.Props.C17
   Ivg.Props.C17.reset_reseeds, Ivg.Props.C17.renderer_reset_forgets_hist, Ivg.Props.C17.renderer_rast_reset_forgets,
   Ivg.Props.C17.renderer_reset_rast_forgets, Ivg.Props.C17.renderer_reuse_hist, Ivg.Props.C17.renderer_reuse_hist',
   Ivg.Props.C17.wellBracketedOps_of_calls,
-  Ivg.Gen.Tie.encoder_fields_tie, Ivg.Gen.Tie.renderer_fields_tie, Ivg.Gen.Tie.gradient_fields_tie]
+  Ivg.Gen.Tie.encoder_fields_tie, Ivg.Gen.Tie.renderer_fields_tie, Ivg.Gen.Tie.gradient_fields_tie,
+  -- regenerated code (translator, Ivg/Gen/Code) = model, for all inputs: RenderRegs
+  Ivg.Gen.Tie.renderer_CSel_code_tie,
+  Ivg.Gen.Tie.renderer_NSel_code_tie,
+  Ivg.Gen.Tie.renderer_SetCSel_code_tie,
+  Ivg.Gen.Tie.renderer_SetNSel_code_tie,
+  Ivg.Gen.Tie.renderer_SetLOD_code_tie,
+  Ivg.Gen.Tie.renderer_SetNReg_code_tie,
+  Ivg.Gen.Tie.positiveInfinity_code_tie,
+  Ivg.Gen.Tie.renderer_Reset_code_tie,
+  Ivg.Gen.Tie.renderer_Reset_code_tie_frame]
